@@ -330,6 +330,14 @@ pub enum Fault {
     DuplicateChunk(u16, u8),
 }
 
+pub fn fault_strategy_pub() -> impl Strategy<Value = Fault> {
+    fault_strategy()
+}
+
+pub fn random_bytes_strategy_pub() -> BoxedStrategy<(Vec<u8>, usize)> {
+    random_bytes_strategy()
+}
+
 fn fault_strategy() -> impl Strategy<Value = Fault> {
     let boundary = proptest::sample::select(vec![0x00u8, 0x01, 0x3f, 0x40, 0x7f, 0x80, 0x81, 0xbf, 0xc0, 0xc1, 0xc4, 0xc5, 0xfe, 0xff]);
     prop_oneof![
